@@ -25,14 +25,14 @@ open Mila.Spec.Arc (Content u32le LowestLabel NoLabel StringsFunctional HeaderOk
 
 /-- **Extraction clause** (both arithmetic profiles `p`).  For every little-endian archive whose
 content conforms to the arc layout for `files` — with or without the 0x60-byte zero header,
-records in any order, bodies anywhere (shared, overlapping, empty bodies at any offset) —
-extraction returns one entry per record, keyed by its name, holding exactly the recorded range. -/
+records in any order, bodies anywhere (shared, overlapping, empty bodies at any offset), and also
+tiny arcs without any body whose data region is shorter than a header — extraction returns one entry per record, keyed by its name, holding exactly the recorded range. -/
 theorem arc_conforming (p : Profile) (a : BinArchive) (hle : a.endian = .little)
     {files : List (Str × Bytes)} {padded : Bool}
     (hc : ConformsArc (contentOf a) files padded) (hN : DistinctNames files) :
     fromArchive p a = .ok files := by
   obtain ⟨ca, ia, hsf, hcount, hinfo, hhead, hn, hfiles⟩ := hc
-  obtain ⟨w, hw, hpad⟩ := header_word _ _ hhead
+  obtain ⟨w, padded, hw, hpad, hfiles⟩ := header_fits_word _ files padded ia hhead hfiles
   obtain ⟨r1, r2, r3, r4⟩ := files_recs a padded ia files 0 (by simpa using hfiles)
   have t : TableOk a ca ia w (recsOfFiles a ia 0 files).length :=
     ⟨hle, hsf, hcount, hinfo, hw, by rw [r4]; exact hn⟩
@@ -177,6 +177,27 @@ private def exP : BinArchive :=
 example : ConformsArcAt (contentOf exP) [(bs ['z'], [0x11, 0x22])] true 96 100 ∧
     fromArchive .wrapping exP = .ok [(bs ['z'], [0x11, 0x22])] := by
   refine ⟨by decide +kernel, by decide +kernel⟩
+
+/-- The empty unpadded arc — the count word 0 alone, `Info` on the (empty) table at the end of the
+data — and a 12-byte arc of one empty file behind a zero first word conform (`HeaderFits`: no
+file has a body, so no 0x60-byte header is needed although the first data word is 0), and
+extraction returns the files in both profiles. -/
+private def exE : BinArchive :=
+  { data := [0, 0, 0, 0], text := [], pointers := [],
+    labels := [(0, [bs ['C', 'o', 'u', 'n', 't']]), (4, [bs ['I', 'n', 'f', 'o']])],
+    cstrings := [], endian := .little }
+
+private def exE1 : BinArchive :=
+  { data := [0, 0, 0, 0] ++ leBytes 4 1 ++ ([0, 0, 0, 0] ++ leBytes 4 0x80000000 ++ leBytes 4 0 ++ leBytes 4 0xFFFFFFFF)
+    text := [(8, bs ['e'])], pointers := []
+    labels := [(4, [bs ['C', 'o', 'u', 'n', 't']]), (8, [bs ['I', 'n', 'f', 'o'], bs ['e']])],
+    cstrings := [], endian := .little }
+
+example : ConformsArcAt (contentOf exE) [] false 0 4 ∧ fromArchive .checked exE = .ok [] ∧
+    fromArchive .wrapping exE = .ok [] ∧
+    ConformsArcAt (contentOf exE1) [(bs ['e'], [])] false 4 8 ∧
+    fromArchive .checked exE1 = .ok [(bs ['e'], [])] := by
+  refine ⟨by decide +kernel, by decide +kernel, by decide +kernel, by decide +kernel, by decide +kernel⟩
 
 /-- The out-of-range hypotheses are satisfiable: the same padded archive with the offset
 `0xFFFFFFF0`, which a 32-bit addition of the padding would wrap to `0x50` (defect D9). -/
